@@ -228,7 +228,7 @@ def known_sigs():
 
 class IntSeqStream(Stream):
     name = "intseq"
-    coq_import = "From Cylc Require Import Model.IntSeq."
+    coq_import = "From Cylc Require Import Model.IntSeq. Open Scope Z_scope."
     check_fn = "IntSeq.check_case"
     show_fn = "IntSeq.model_out"
     n_hashseeds = 4
@@ -403,7 +403,9 @@ class IntSeqStream(Stream):
 
         top = hi - 100 if ref.unbounded else None   # answers beyond this are not checked
         exp_start = members[0] if members else None
-        if r["start_pt"] != exp_start:
+        if r["start_pt"] != exp_start and not (ref.unbounded and not members):
+            # (unbounded and everything excluded in the window: the code recurses
+            #  for ever, the text gives no answer -- not checked)
             fails.append((self.q_class(c, ref, None, "start", exp_start),
                           f"{ctx}: get_start_point()={r['start_pt']} expected {exp_start}"))
         exp_stop = None if (ref.unbounded or not members) else members[-1]
@@ -520,21 +522,28 @@ class IntSeqStream(Stream):
     def _err(cls, s):
         return cls.ERR.get(s[2:], "EOther")
 
+    @staticmethod
+    def _z(n):
+        return str(n) if n >= 0 else f"({n})"
+
+    @classmethod
+    def _oz(cls, n):
+        return "None" if n is None else f"(Some {cls._z(n)})"
+
     @classmethod
     def _ans(cls, v):
         if isinstance(v, str):
-            return f"(Err {cls._err(v)})"
-        return "(Ok " + q.copt(v, q.cz) + ")"
+            return f"(aE {cls._err(v)})"
+        return "aN" if v is None else f"(aS {cls._z(v)})"
 
-    @staticmethod
-    def _pexpr(p):
-        return q.copt(p, lambda x: f"({'Abs' if x[0] == 'abs' else 'Rel'} {q.cz(x[1])})")
+    @classmethod
+    def _pexpr(cls, p):
+        return "None" if p is None else f"(Some ({'Abs' if p[0] == 'abs' else 'Rel'} {cls._z(p[1])}))"
 
     @classmethod
     def _form(cls, f):
-        return q.crecord(f_fmt=q.cz(f["fmt"]), f_reps=q.copt(f["reps"], q.cz),
-                         f_start=cls._pexpr(f["start"]), f_end=cls._pexpr(f["end"]),
-                         f_intv=q.copt(f["intv"], q.cz))
+        return (f"(mkf {f['fmt']} {cls._oz(f['reps'])} {cls._pexpr(f['start'])} "
+                f"{cls._pexpr(f['end'])} {cls._oz(f['intv'])})")
 
     @staticmethod
     def _form_ok(f):
@@ -546,35 +555,37 @@ class IntSeqStream(Stream):
         return not isinstance(f["intv"], list)
 
     def coq_case(self, c, r):
+        # terms are written for `Open Scope Z_scope` (see coq_import): plain
+        # numerals and applications keep the case files small and fast to elaborate;
+        # the query list is a cons chain because Coq parses long `[a; b; ...]` notations slowly
         if not self._form_ok(r.get("form")) or "parse_exc" in r:
             return None
-        items = None
+        items = "None"
         if "!" in r["rec"]:
-            items = []
+            its = []
             for it in r["xitems"]:
                 if "pt" in it:
-                    items.append(f"(XP {q.cz(it['pt'])})")
+                    its.append(f"XP {self._z(it['pt'])}")
                 elif "seq" in it and self._form_ok(it["seq"]):
-                    items.append(f"(XS {self._form(it['seq'])})")
+                    its.append(f"XS {self._form(it['seq'])}")
                 else:
                     return None
+            items = "(Some [" + "; ".join(its) + "])"
         if r["init"] != "ok":
             impl = f"(IRaised {self._err(r['init'])})"
         else:
             qa = []
             for i, p in enumerate(c["q"]):
-                qa.append(q.crecord(
-                    q_point=q.cz(p), q_on=q.cbool(r["on"][i]), q_valid=q.cbool(r["valid"][i]),
-                    q_next=self._ans(r["next"][i]), q_prev=self._ans(r["prev"][i]),
-                    q_first=self._ans(r["first"][i]), q_nprev=self._ans(r["nprev"][i]),
-                    q_nos=self._ans(r["nos"][i])))
+                qa.append(" ".join(["mkq", self._z(p), q.cbool(r["on"][i]), q.cbool(r["valid"][i]),
+                                    self._ans(r["next"][i]), self._ans(r["prev"][i]),
+                                    self._ans(r["first"][i]), self._ans(r["nprev"][i]),
+                                    self._ans(r["nos"][i])]))
             st = r["state"]
-            impl = ("(IBuilt " + " ".join([q.cz(st[0]), q.copt(st[1], q.cz), q.copt(st[2], q.cz),
+            impl = ("(IBuilt " + " ".join([self._z(st[0]), self._oz(st[1]), self._oz(st[2]),
                                            self._ans(r["start_pt"]), self._ans(r["stop_pt"]),
-                                           q.clist(qa)]) + ")")
-        return q.crecord(k_form=self._form(r["form"]),
-                         k_items=q.copt(items, q.clist),
-                         k_cs=q.cz(c["I"]), k_ce=q.copt(c.get("F"), q.cz), k_impl=impl)
+                                           "(" + " :: ".join(f"({x})" for x in qa) + " :: nil)"]) + ")")
+        return (f"mkcase {self._form(r['form'])} {items} {self._z(c['I'])} "
+                f"{self._oz(c.get('F'))} {impl}")
 
     # ----------------------------------------------------------- generation
     @staticmethod
@@ -673,15 +684,15 @@ class IntSeqStream(Stream):
         if quick:
             ex = self._exhaustive([-1, 0, 2, 5, 8], [1, 2, 3], [1, 2, 3, 5],
                                   [(1, 10), (0, 7), (-2, 4), (3, None), (2, 2), (4, 3)])
-            cases += rng.sample(ex, 700)
+            cases += rng.sample(ex, 1500)
         else:
             cases += self._exhaustive(list(range(-2, 10)), [1, 2, 3, 4], [1, 2, 3, 4, 6],
                                       [(1, 10), (0, 7), (-2, 4), (3, None), (2, 2), (4, 3), (0, 1), (-1, 8)])
         # 2. random small cases with exclusions
-        for _ in range(900 if quick else 25000):
+        for _ in range(2200 if quick else 25000):
             cases.append(self._rand_case(rng, -2, 9, 4, 5))
         # 3. random larger values
-        for _ in range(150 if quick else 5000):
+        for _ in range(300 if quick else 5000):
             c = self._rand_case(rng, -40, 120, 17, 9, kind="random-large")
             I, F = c["I"], c.get("F")
             top = F if F is not None else I + 60
@@ -691,7 +702,7 @@ class IntSeqStream(Stream):
             c["q"] = sorted(pts)
             cases.append(c)
         # 4. degenerate (R0 / P0): no specification, model == code only
-        for _ in range(60 if quick else 1500):
+        for _ in range(100 if quick else 1500):
             cases.append(self._rand_case(rng, -2, 9, 2, 2, kind="degenerate", degenerate=True))
         # 5. malformed / out-of-fragment strings
         for raw in self.MALFORMED:
@@ -764,10 +775,34 @@ class IntSeqStream(Stream):
 IntSeqStream.rule = (
     "cases = (named recurrence form, values, initial/final point, exclusion points, exclusion sequences, "
     "query points); the string is rendered, the real constructor and all eight API methods are called for "
-    "every query point. quick: 700 sampled from the exhaustive no-exclusion box (11 forms x values in "
-    "{-1,0,2,5,8,+-P0..2} x k<=3 x n<=5 x 6 contexts) + 900 random small cases with exclusions + 150 random "
+    "every query point. quick: 1500 sampled from the exhaustive no-exclusion box (11 forms x values in "
+    "{-1,0,2,5,8,+-P0..2} x k<=3 x n<=5 x 6 contexts) + 2200 random small cases with exclusions + 300 random "
     "large + R0/P0 + malformed strings; thorough: the whole box over [-2,9] (8 contexts) + 25000 + 5000. "
     "non-trivial = constructed sequence with >= 2 valid query points or with exclusions")
 
 STREAMS = [IntSeqStream()]
-META = {"level_text": "", "level_note": "", "technique": "", "design_ref": "5/C16"}
+META = {
+    "level_text": (
+        "Coq theorems over the hand model Model/IntSeq.v of IntegerSequence/IntegerExclusions, for all values and all fuel: "
+        "(A) for every state the constructor can return, is_valid is exactly membership in the set of the state "
+        "(progression from p_start by i_step within [p_start,p_stop] minus exclusion points and exclusion sequences); "
+        "get_first_point, get_next_point (p >= start-step), get_next_point_on_sequence and get_start_point return the "
+        "least member on the stated side or None iff none; get_prev_point, get_nearest_prev_point and get_stop_point the "
+        "greatest member when the stop point is on the grid and p <= stop+step; explicit fuel bounds; the only exception "
+        "a query can raise is the TypeError of a stepped exclusion sequence. "
+        "(B) for every recurrence form outside the constructor's defect classes (hypothesis sane_input) the constructor "
+        "succeeds and the set of the state equals `denote` = the form's arithmetic progression clipped to [initial, final] "
+        "minus exclusions, so all queries agree with `denote`. (C) Rn/START/END with n != 1 is rejected for all values. "
+        "The full statements (all forms, all query points, never raising) are kept as Definitions and are REFUTED in Coq on "
+        "witnesses of 12 defect classes (known findings). Model tied to integer.py by differential runs of the constructor "
+        "and all 8 API methods on every query point (state p_start/p_stop/i_step compared too), plus a brute-force "
+        "reference-set oracle on the implementation alone."),
+    "level_note": (
+        "partial: the property text does not hold of the code; theorems carry the excluding hypotheses (sane_input, query "
+        "range, stop on grid) and conclusions are conditional on the call returning (Ok). Trusted: hand model + the driver's "
+        "re-run of the regex dispatch loop over the real table (form record), Coq kernel/VM, harness. R0 and P0 are "
+        "modelled and compared but carry no specification."),
+    "technique": "Coq proof (fuel induction, Z arithmetic) + refutation by vm_compute witnesses + in-Coq differential "
+                 "correspondence + brute-force reference oracle",
+    "design_ref": "5/C16",
+}
